@@ -462,6 +462,38 @@ class C10Engine:
             i = m[op[1]]["idxs"][op[2]]
             if op[3] == "obj" and any(w.idx_content(x) == w.idx_content(i) for x in m[op[1]]["idxs"] if x != i):
                 return "equal twin index"
+        elif k == "gitem_add":
+            _, g, t = op
+            if t not in m or m[t]["kind"] != "table" or m[t]["db"] != self.db or t in m[g]["items"]:
+                return "group item"
+        elif k == "gitem_del":
+            if op[2] >= len(m[op[1]]["items"]):
+                return "no such group item"
+        elif k == "del_column":
+            _, t, n, _how = op
+            cols = m[t]["cols"]
+            if n >= len(cols) or len(cols) < 2:
+                return "no such column"
+            c = cols[n]
+            for h, d in m.items():
+                if d["kind"] == "ref" and (c in d["col1"] or c in d["col2"]):
+                    return "column used by a reference"
+                if d["kind"] == "index" and any(s[0] == "col" and s[1] == c for s in d["subjects"]):
+                    return "column used by an index"
+            if op[3] == "obj" and any(w.col_content(x) == w.col_content(c) for x in cols if x != c):
+                return "equal twin column"
+        elif k == "del_item":
+            if op[2] >= len(m[op[1]]["items"]) or len(m[op[1]]["items"]) < 2:
+                return "no such item"
+        elif k == "del_table":
+            t = op[1]
+            if t not in m[self.db]["tables"] or len(m[self.db]["tables"]) < 2:
+                return "not contained"
+            for h, d in m.items():
+                if d["kind"] == "ref" and any(m[c]["table"] == t for c in d["col1"] + d["col2"]):
+                    return "table used by a reference"
+                if d["kind"] == "group" and t in d["items"]:
+                    return "table used by a group"
         elif k == "new_ref":
             spec = op[1]
             for c in spec["col1"] + spec["col2"]:
@@ -568,6 +600,25 @@ class C10Engine:
             i = m[t]["idxs"].pop(n)
             m[i]["table"] = None
             real[t].delete_index(real[i] if op[3] == "obj" else n)
+        elif k == "gitem_add":
+            m[op[1]]["items"].append(op[2])
+            real[op[1]].items.append(real[op[2]])
+        elif k == "gitem_del":
+            del m[op[1]]["items"][op[2]]
+            del real[op[1]].items[op[2]]
+        elif k == "del_column":
+            _, t, n, how = op
+            c = m[t]["cols"].pop(n)
+            m[c]["table"] = None
+            real[t].delete_column(real[c] if how == "obj" else n)
+        elif k == "del_item":
+            del m[op[1]]["items"][op[2]]
+            del real[op[1]].items[op[2]]
+        elif k == "del_table":
+            t = op[1]
+            m[self.db]["tables"].remove(t)
+            m[t]["db"] = None
+            real[self.db].delete(real[t])
         elif k == "new_ref":
             spec = op[1]
             r = w.ref(**spec)
@@ -711,13 +762,13 @@ def draw_op(rng: random.Random, eng: C10Engine) -> List[Any]:
         return ["prop", rng.choice(cand), rng.choice(["tp", "cp", "newp"]), rng.choice([None, "v2", "multi\nline"])]
     if r < 0.89:
         return ["flip_props", db]
-    if r < 0.92 and d["project"]:
+    if r < 0.905 and d["project"]:
         p = d["project"]
         if rng.random() < 0.5:
             return ["pitem", p, rng.choice(["author", "k2"]), rng.choice([None, "val", "m\nl"])]
         f = rng.choice(["name", "comment"])
         return ["set", p, f, {"name": rng.choice(["proj", "p two"]), "comment": rng.choice([None, "pc2"])}[f]]
-    if r < 0.95 and (d["groups"] or d["notes"]):
+    if r < 0.93 and (d["groups"] or d["notes"]):
         h = rng.choice(d["groups"] + d["notes"])
         if m[h]["kind"] == "group":
             f = rng.choice(["name", "comment", "color", "note"])
@@ -725,12 +776,27 @@ def draw_op(rng: random.Random, eng: C10Engine) -> List[Any]:
                                   "color": rng.choice(COLORS), "note": rng.choice([None, "gn2", "g\nn"])}[f]]
         f = rng.choice(["name", "text"])
         return ["set", h, f, {"name": rng.choice(["sn0", "sn_new"]), "text": rng.choice(TEXTS)}[f]]
-    if r < 0.975:
+    if r < 0.97:
+        rr = rng.random()
+        if rr < 0.3 and d["groups"]:
+            g = rng.choice(d["groups"])
+            if rng.random() < 0.5:
+                return ["gitem_add", g, rng.choice(tables)]
+            n = len(m[g]["items"])
+            return ["gitem_del", g, rng.randrange(n) if n else 0]
+        if rr < 0.6:
+            t = rng.choice(tables)
+            return ["del_column", t, rng.randrange(len(m[t]["cols"])), rng.choice(["obj", "pos"])]
+        if rr < 0.8 and d["enums"]:
+            e = rng.choice(d["enums"])
+            return ["del_item", e, rng.randrange(len(m[e]["items"]))]
+        return ["del_table", rng.choice(tables)]
+    if r < 0.985:
         cols = [c for t in tables for c in m[t]["cols"]]
         c1, c2 = rng.choice(cols), rng.choice(cols)
         return ["new_ref", dict(type=rng.choice(REFTYPES), col1=[c1], col2=[c2], name=rng.choice([None, "fk_added"]),
                                 on_delete=rng.choice(ACTIONS), inline=rng.random() < 0.4)]
-    if r < 0.99 and d["refs"]:
+    if r < 0.995 and d["refs"]:
         return ["del_ref", rng.choice(d["refs"])]
     return ["new_table", dict(name=rng.choice(NAME_POOL + ["fresh_t"]), schema=rng.choice(SCHEMAS),
                               alias=rng.choice([None, "nal"]), note=rng.choice(["", "tn"]),
